@@ -28,15 +28,15 @@ type SharedHit struct {
 
 // Task is one simulated caller goroutine.
 type Task struct {
-	ID      int
-	Fn      func()
-	Steps   int64
-	Budget  int64
-	Aborted string // non-empty: the task was unwound by the simulator (step budget, deadlock)
-	Panic   string // non-empty: the code under test panicked
-	Stack   string
-	Hits    []SharedHit // shared sites reached (capped)
-	LeakedGoroutines int // goroutines spawned by this call that were still blocked after it returned
+	ID               int
+	Fn               func()
+	Steps            int64
+	Budget           int64
+	Aborted          string // non-empty: the task was unwound by the simulator (step budget, deadlock)
+	Panic            string // non-empty: the code under test panicked
+	Stack            string
+	Hits             []SharedHit // shared sites reached (capped)
+	LeakedGoroutines int         // goroutines spawned by this call that were still blocked after it returned
 
 	ring    [256]int32
 	resume  chan struct{}
@@ -116,22 +116,28 @@ type Sched struct {
 	Overlap     bool
 	Races       []Race
 	DetectRaces bool
-	Deadlock    bool
-	Watchdog    bool
+	// Quantum > 0: round-robin time slicing. After every Quantum steps a task hands over to the
+	// runnable task with the next higher id (wrapping around), so that many tasks advance in
+	// lockstep — the schedule under which N callers are all inside an entry point at once. A task
+	// also hands over just before every lock / channel operation, where a real thread is most
+	// likely to lose the processor.
+	Quantum  int64
+	Deadlock bool
+	Watchdog bool
 
 	// Leaked counts goroutines of the code under test that were still blocked when every
 	// caller task had returned (they are unwound by the simulator).
-	Leaked int
+	Leaked  int
 	Spawned int
 
-	cur      *Task
-	mainWake chan struct{}
-	accs     []accRec
-	raceSeen map[string]bool
-	solo     bool
-	wg       sync.WaitGroup
+	cur       *Task
+	mainWake  chan struct{}
+	accs      []accRec
+	raceSeen  map[string]bool
+	solo      bool
+	wg        sync.WaitGroup
 	decisions uint64
-	roots    int
+	roots     int
 }
 
 // SchedPolicy steers the scheduling decisions that are not part of an explicit plan: which
@@ -236,6 +242,18 @@ func Yield(id int) {
 		// lock operations, channel operations and simulated I/O are places where a real thread is
 		// likely to be descheduled: candidates for preemption as well
 		t.Hits = append(t.Hits, SharedHit{t.Steps, id})
+	}
+	if s.Quantum > 0 && (t.Steps%s.Quantum == 0 || id == SiteLock) {
+		if r := s.runnable(t); len(r) > 0 {
+			next := r[0].ID
+			for _, c := range r {
+				if c.ID > t.ID {
+					next = c.ID
+					break
+				}
+			}
+			s.switchFrom(t, next)
+		}
 	}
 	if t.preIdx < len(t.pre) && t.pre[t.preIdx].Step <= t.Steps {
 		p := t.pre[t.preIdx]
